@@ -157,6 +157,10 @@ type mergeProcessor struct {
 	missingEncryptionBlocks map[cidlink.Link]struct{}
 	// availableEncryptionBlocks is a list of blocks that we have successfully fetched
 	availableEncryptionBlocks map[cidlink.Link]*coreblock.Encryption
+	// mergedBlocks contains the CIDs of the blocks whose delta has been merged by the mergeProcessor.
+	// The composites are walked again after missing encryption keys have been fetched, and the blocks
+	// that were readable in an earlier pass must not be merged a second time.
+	mergedBlocks map[cid.Cid]struct{}
 }
 
 func (db *DB) newMergeProcessor(
@@ -180,6 +184,7 @@ func (db *DB) newMergeProcessor(
 		loadedComposites:          make(map[cid.Cid]struct{}),
 		missingEncryptionBlocks:   make(map[cidlink.Link]struct{}),
 		availableEncryptionBlocks: make(map[cidlink.Link]*coreblock.Encryption),
+		mergedBlocks:              make(map[cid.Cid]struct{}),
 	}, nil
 }
 
@@ -407,7 +412,8 @@ func (mp *mergeProcessor) processBlock(
 		return err
 	}
 
-	if canRead {
+	_, alreadyMerged := mp.mergedBlocks[blockLink.Cid]
+	if canRead && !alreadyMerged {
 		crdt, err := mp.initCRDTForType(ctx, dagBlock.Delta)
 		if err != nil {
 			return err
@@ -423,6 +429,7 @@ func (mp *mergeProcessor) processBlock(
 		if err != nil {
 			return err
 		}
+		mp.mergedBlocks[blockLink.Cid] = struct{}{}
 	}
 
 	for _, link := range dagBlock.Links {
